@@ -41,3 +41,4 @@ void h_Node_shrink_w(void) { shrink_case(); }
 void h_Node_shrink_l(void) { shrink_case(); }
 void h_Node_shrink_first(void) { shrink_case(); }
 #endif
+void h_Node_lookupNode(void) { struct Node *n = mknode(); struct RLV lv = mkview(); Node__lookupNode(n, lv); CANARY; }
